@@ -244,14 +244,9 @@ func c15Reference(text string) c15Ref {
 		}
 		r.Kind = kw
 	case "constructor":
-		names, ok, nj := c15List(text, a, c15IdentASCII)
-		unames, uok, unj := c15List(text, a, c15IdentUnicode)
-		switch {
-		case ok != uok || !c15SameList(names, unames) || nj != unj:
-			r.Kind, r.NJ = kw, c15NJUnicode
-		case !ok:
-			// required list missing or malformed: not an annotation
-		default:
+		// Go identifiers: a Unicode letter or '_' followed by Unicode letters, digits and '_'
+		names, ok, nj := c15List(text, a, c15IdentUnicode)
+		if ok {
 			r.Kind, r.Names, r.NJ = kw, names, nj
 		}
 	case "ignore":
